@@ -47,7 +47,9 @@ class Bundle(CborArray):
 
     def post_dissect(self, s):
         # Special handling for admin payload
-        if self.primary and self.primary.getfieldval('bundle_flags') & PrimaryBlock.Flag.PAYLOAD_ADMIN:
+        flags = self.primary.getfieldval('bundle_flags') if self.primary else 0
+        # the payload of a fragment is only a part of the record
+        if flags & PrimaryBlock.Flag.PAYLOAD_ADMIN and not flags & PrimaryBlock.Flag.IS_FRAGMENT:
             for blk in self.blocks:
                 blk_data = blk.getfieldval('btsd')
                 if (blk.type_code == Bundle.BLOCK_TYPE_PAYLOAD
